@@ -282,6 +282,11 @@ impl<'a> StagesBuilder<'a> {
         let new_reads = new_reads.into_iter();
         let new_writes = new_writes.into_iter();
 
+        // Dependencies in front of the barrier are already satisfied by it.
+        for stage in 0..self.barrier {
+            self.remove_ids(stage, new_dep);
+        }
+
         (self.barrier..self.stages.len())
             .map(|stage| {
                 let conflict = Self::find_conflict(
@@ -382,9 +387,8 @@ impl<'a> StagesBuilder<'a> {
     fn remove_ids(&self, stage: usize, new_dep: &mut SmallVec<[SystemId; 4]>) {
         if !new_dep.is_empty() {
             for id in self.ids[stage].iter().flatten() {
-                if let Some(index) = new_dep.iter().position(|x| *x == *id) {
-                    new_dep.remove(index);
-                }
+                // A dependency may be listed more than once.
+                new_dep.retain(|x| *x != *id);
             }
         }
     }
